@@ -62,8 +62,8 @@ CLAIMED.update({
 
 CLAIMED.update({
     'C10': dict(
-        text='db/dh/dw/dd, pack in all 20 format/byte-order combinations and the five sequence directives are assembled with symbolic values (beyond both ends of every width): accepted iff the value fits, bytes equal the little/big-endian two\'s complement of the documented width, and the size used for label layout equals the bytes emitted. include_bytes runs over a virtual file system with symbolic existence bits in source / -i / working directory and a symbolic working directory: the bytes are those of the file the documented search finds. string (escapes, UTF-8) is bug-hunting only (CrossHair cannot confirm through the C codecs) and is not part of the claim.',
-        note='Trusted: z3, stubs (struct.pack contract, virtual file system). The string sub-property is NOT claimed (listed in evidence.outside_claim).',
+        text='db/dh/dw/dd, pack in all 20 format/byte-order combinations and the five sequence directives are assembled with symbolic values (beyond both ends of every width): accepted iff the value fits, bytes equal the little/big-endian two\'s complement of the documented width, and the size used for label layout equals the bytes emitted. include_bytes runs over a virtual file system with symbolic existence bits in source / -i / working directory and a symbolic working directory: the bytes are those of the file the documented search finds. string: the real lexer, parser, String.size and resolve_strings run on text shapes whose characters are symbolic code points (any character of a UTF-8 source line; all one-character, octal, \\x, \\u, \\U escapes), with Python models of the codecs and a symbolic regex matcher, and are compared by the solver with a character-level reference (escape table + RFC 3629); every path is replayed through the real codecs.',
+        note='Trusted: z3, stubs (struct.pack contract, virtual file system, codec and regex models - each validated by per-path replay on CPython). Outside: \\N{name}, malformed escapes, text shapes other than those listed in the evidence.',
         ref='6 C10'),
     'C11': dict(
         text='For every operand position of all 93 mnemonics the program written with a constant / register alias and the program written with the literal have the same outcome for all values (off/on); every documented operator is evaluated through the real resolve_constants on a symbolic operand and compared with a 160-bit reference; constants in db..dd and inside %hi/%lo/%position likewise. The 94 printable-ASCII character literals are a finite table compared concretely (plus CrossHair search).',
